@@ -261,6 +261,83 @@ func runC17(p *core.Prog, r *core.Report) {
 			}
 		})
 		r.Check(okAcyc, "C17.R3", "NewModuleGraph/acyclic", "a module graph with a cycle is rejected with an error", "Acyclic test with error return not found", p.Pos(ng.Pos()))
+		// the acyclicity test only bounds the layering loop if the graph holds an edge for EVERY reference the
+		// loop waits on: each map/store input and the block filter, self references included
+		mg := p.Named(pkgMani, "ModuleGraph")
+		idxF := core.FieldOf(mg, "moduleIndex")
+		nLook, nComplete := 0, 0
+		keyFields := map[string]bool{}
+		core.Instrs(ng, func(in ssa.Instruction) {
+			lk, ok := in.(*ssa.Lookup)
+			if !ok || !lk.CommaOk {
+				return
+			}
+			if f, _ := core.LoadedField(lk.X); f != idxF {
+				return
+			}
+			nLook++
+			src := core.Trace(lk.Index, 1)
+			for _, n := range []string{"ModuleName", "Module"} {
+				if hasFieldNamed(src, n) {
+					keyFields[n] = true
+				}
+			}
+			var found, idx ssa.Value
+			for _, ref := range *lk.Referrers() {
+				if ex, ok := ref.(*ssa.Extract); ok {
+					if ex.Index == 1 {
+						found = ex
+					} else {
+						idx = ex
+					}
+				}
+			}
+			if found == nil || idx == nil {
+				return
+			}
+			for _, ref := range *found.Referrers() {
+				ifi, ok := ref.(*ssa.If)
+				if !ok {
+					continue
+				}
+				tb, fb := ifi.Block().Succs[0], ifi.Block().Succs[1]
+				isEdge := func(x ssa.Instruction) bool {
+					c := core.CalleeOf(x)
+					if c == nil || c.Name() != "AddCost" {
+						return false
+					}
+					args := x.(ssa.CallInstruction).Common().Args
+					return len(args) >= 3 && core.SkipConv(args[len(args)-2]) == idx
+				}
+				if isEdge(tb.Instrs[0]) {
+					nComplete++
+					continue
+				}
+				q := core.PathQuery{Fn: ng, CutInstr: isEdge}
+				if _, reach := q.CanReach(tb.Instrs[0], func(x ssa.Instruction) bool { return x == fb.Instrs[0] }); !reach {
+					nComplete++
+					continue
+				}
+				// an edge may be left out only for references validation is verified to refuse: a module naming itself
+				// (every reference field feeding this lookup must be compared with the module's own name → error)
+				refused := true
+				nRef := 0
+				for f := range src.Fields {
+					if f.Name() == "ModuleName" || (f.Name() == "Module" && f.Pkg() != nil && strings.HasSuffix(f.Pkg().Path(), pkgPBV1)) {
+						nRef++
+						if !selfReferenceRefused(p, f) {
+							refused = false
+						}
+					}
+				}
+				if nRef > 0 && refused && onlySelfExcluded(ng, tb, fb, idx, isEdge) {
+					nComplete++
+				}
+			}
+		})
+		r.Check(nLook >= 2 && nComplete == nLook && keyFields["ModuleName"] && keyFields["Module"], "C17.R3", "NewModuleGraph/edges-complete",
+			"every reference that resolves to a module — each map/store input and the block filter, a module's reference to itself included — becomes an edge of the graph tested for cycles (the layering loop waits on exactly these references)",
+			fmt.Sprintf("%d module-name lookups, %d add an edge whenever the name is found; keys cover inputs=%v blockFilter=%v", nLook, nComplete, keyFields["ModuleName"], keyFields["Module"]), p.Pos(ng.Pos()))
 		cgf := p.Func(pkgExec, "Graph.computeGraph")
 		ngCalls := core.FindInstrs(cgf, core.IsCallTo(p.FuncObj(pkgMani, "NewModuleGraph")))
 		okOrder := len(ngCalls) == 1
@@ -310,7 +387,7 @@ func runC17(p *core.Prog, r *core.Report) {
 	})
 	r.MinInstances("C17.R1", 6)
 	r.MinInstances("C17.R2", 5)
-	r.MinInstances("C17.R3", 6)
+	r.MinInstances("C17.R3", 7)
 }
 
 func uniq(xs []string) []string {
@@ -574,4 +651,71 @@ func checkValidationPreconditions(p *core.Prog, r *core.Report) {
 		}
 		r.Check(ok, "C17.R1", "precondition/"+v.fn+"/modules-non-nil", v.fn+" dereferences request.Modules only after "+v.val+" (which rejects a nil Modules) succeeded", "validateRequest reachable without the successful Validate()", p.Pos(fn.Pos()))
 	}
+}
+
+// selfReferenceRefused: some validation function of package manifest compares the given reference field with the
+// module's own Name and returns an error on equality.
+func selfReferenceRefused(p *core.Prog, ref *types.Var) bool {
+	nameF := core.FieldOf(p.Named(pkgPBV1, "Module"), "Name")
+	ok := false
+	for _, fn := range p.RepoFunctions() {
+		if fn.Pkg == nil || fn.Pkg.Pkg.Path() != core.ModPath+"/"+pkgMani {
+			continue
+		}
+		core.Instrs(fn, func(in ssa.Instruction) {
+			ifi, isIf := in.(*ssa.If)
+			if !isIf {
+				return
+			}
+			c, neg := core.StripNot(ifi.Cond)
+			bo, isBo := c.(*ssa.BinOp)
+			if !isBo || (bo.Op != token.EQL && bo.Op != token.NEQ) {
+				return
+			}
+			has := func(v ssa.Value, f *types.Var) bool { return core.Trace(v, 1).Fields[f] }
+			if !((has(bo.X, ref) && has(bo.Y, nameF)) || (has(bo.Y, ref) && has(bo.X, nameF))) {
+				return
+			}
+			eq := 0
+			if (bo.Op == token.NEQ) != neg {
+				eq = 1
+			}
+			b := ifi.Block().Succs[eq]
+			if ret, isRet := b.Instrs[len(b.Instrs)-1].(*ssa.Return); isRet && !core.ReturnsNilError(ret) {
+				ok = true
+			}
+		})
+	}
+	return ok
+}
+
+// onlySelfExcluded: between the found-edge and the join, the only condition under which the edge is not added
+// is `looked-up index == the module's own index`.
+func onlySelfExcluded(fn *ssa.Function, tb, fb *ssa.BasicBlock, idx ssa.Value, isEdge func(ssa.Instruction) bool) bool {
+	var selfEdges []core.Edge
+	core.Instrs(fn, func(in ssa.Instruction) {
+		ifi, ok := in.(*ssa.If)
+		if !ok {
+			return
+		}
+		c, neg := core.StripNot(ifi.Cond)
+		bo, isBo := c.(*ssa.BinOp)
+		if !isBo || (bo.Op != token.EQL && bo.Op != token.NEQ) {
+			return
+		}
+		if core.SkipConv(bo.X) != idx && core.SkipConv(bo.Y) != idx {
+			return
+		}
+		eq := 0
+		if (bo.Op == token.NEQ) != neg {
+			eq = 1
+		}
+		selfEdges = append(selfEdges, core.Edge{From: ifi.Block(), Idx: eq})
+	})
+	if len(selfEdges) == 0 {
+		return false
+	}
+	q := core.PathQuery{Fn: fn, CutInstr: isEdge, CutEdge: func(e core.Edge) bool { return containsEdge(selfEdges, e) }}
+	_, reach := q.CanReach(tb.Instrs[0], func(x ssa.Instruction) bool { return x == fb.Instrs[0] })
+	return !reach
 }
